@@ -153,29 +153,21 @@ def gen_scenario(rng, ns, nw, profile, argcopy=1024, ntasks=None, allow_subteam=
             who = main
         # a fill must come after nothing in particular; put it anywhere
         who["ops"].insert(rng.below(len(who["ops"]) + 1), f)
-    # disable / enable (main only, one shepherd disabled at a time; see c07.py for the multi-disable finding)
+    # disable / enable windows issued by main: one window per shepherd, windows of different shepherds may overlap or nest
     if ns > 1 and (profile == "c07" or rng.chance(1, 4)):
-        rounds = rng.range(1, 3)
         ops = main["ops"]
-        for _ in range(rounds):
-            s = rng.range(1, ns - 1)
-            a = rng.below(len(ops) + 1)
-            # never nest two disables: choose b so that no other D/E lies in between
-            b = a
-            while b < len(ops) and ops[b][0] not in "DE" and rng.chance(4, 5):
-                b += 1
-            if any(o[0] in "DE" for o in ops[a:b]):
-                continue
-            # inside another window?  count D/E before a
-            depth = 0
-            for o in ops[:a]:
-                depth += 1 if o[0] == "D" else -1 if o[0] == "E" else 0
-            if depth != 0:
-                continue
-            ops.insert(b, "E%d" % s)
-            ops.insert(a, "D%d" % s)
+        sheps = rng.shuffle(list(range(1, ns)))[:rng.range(1, min(3, ns - 1))]
+        ins = []
+        for s in sheps:
+            a_ = rng.below(len(ops) + 1)
+            b_ = rng.range(a_, len(ops))
+            ins.append((a_, 0, "D%d" % s))
             if rng.chance(1, 2):
-                ops.insert(a + 1, "u%d" % rng.range(5, 80))
+                ins.append((a_, 1, "u%d" % rng.range(5, 80)))
+            if rng.chance(5, 6):
+                ins.append((b_, 2, "E%d" % s))
+        for (pos, order, op) in sorted(ins, key=lambda x: (-x[0], -x[1])):
+            ops.insert(pos, op)
     # cap program length (harness MAXOPS 48)
     for t in sc.tasks.values():
         assert len(t["ops"]) <= 46, "program too long"
@@ -403,7 +395,8 @@ def corpus_scenarios(prop):
         for fn in sorted(os.listdir(d)):
             if fn.endswith(".json"):
                 j = json.load(open(os.path.join(d, fn)))
-                out.append(scenario_from_json(j))
+                if "script" in j:
+                    out.append(scenario_from_json(j))
     return out
 
 
